@@ -843,7 +843,7 @@ theorem dispatch_growth {B K : Nat} (hn : NoFuzzy env) {e : Editor D L} (hw : Wi
 /-- the auto-commit / flush tail of a key or a `select` call -/
 theorem tail_within {B K : Nat} {sh0 sh sh2 : Shared D L} {st : St} (hc : Cfg B K sh0) (hk : Keep sh0 sh)
     (hcase : (st = .entering ∧ sh.last = .absorb) ∨ sh.com.len ≤ lenCap B st) (hac : ACBound env sh)
-    (h : (if st == .entering && sh.last == .absorb then Shared.tryAutoCommit env sh else .ok sh) = .ok sh2) :
+    (h : (if (st == .entering || st == .enteringSyllable) && sh.last == .absorb then Shared.tryAutoCommit env sh else .ok sh) = .ok sh2) :
     Cfg B K sh2 ∧ sh2.com.len ≤ lenCap B st := by
   have hc1 : Cfg B K sh := hc.keep hk
   split at h
